@@ -253,7 +253,7 @@ def r09c(chk, rid='R09.c'):
     for name in FREE_CBS:
         f = m.get(f'CSSStyleSheet._setCssText.{name}')
         rs = [text(x.value) for x in ast.walk(f) if isinstance(x, ast.Return)]
-        chk.ob(rid, SHEET, f'CSSStyleSheet._setCssText.{name}', 'returns max(1, expected or 0)', rs == ['max(1, expected or 0)'], f'returns {rs}')
+        chk.ob(rid, SHEET, f'CSSStyleSheet._setCssText.{name}', 'returns max(1, expected or 0)', rs == ['max(1, expected or 0)'], f'returns {rs}', shape=True)
     # the dispatch table maps token kinds to the right callbacks, start level 0
     fn = m.get('CSSStyleSheet._setCssText')
     calls = [c for c in ast.walk(fn) if isinstance(c, ast.Call) and call_name(c) == 'self._parse' and m.enclosing_def(c) is fn]
@@ -395,9 +395,9 @@ def r09d(chk, rid='R09.d'):
     f = chk.repo.fn(RULE, 'CSSRuleRules._finishInsertRule')
     body = [text(s) for s in f.body]
     ok = 'rule._parentRule = self' in body and any('self._cssRules.insert(index, rule)' in b for b in body)
-    chk.ob(rid, RULE, 'CSSRuleRules._finishInsertRule', 'links the rule to this rule and inserts it', ok, str(body))
+    chk.ob(rid, RULE, 'CSSRuleRules._finishInsertRule', 'links the rule to this rule and inserts it', ok, str(body), shape=True)
     ok2 = 'rule._parentStyleSheet = None' in body
-    chk.ob(rid, RULE, 'CSSRuleRules._finishInsertRule', 'a nested rule has no direct sheet link (parentStyleSheet is derived from the parent rule)', ok2, str(body))
+    chk.ob(rid, RULE, 'CSSRuleRules._finishInsertRule', 'a nested rule has no direct sheet link (parentStyleSheet is derived from the parent rule)', ok2, str(body), shape=True)
 
 
 def _paths_without(g, ins, target):
